@@ -18,7 +18,7 @@ ASSUMPTIONS = ['domain: |k_i| < 1 (alphabet moduli <= 0.98), kappa = prod 1/(1-|
 def bounds(tier):
     q = tier == 'quick'
     return {'rc_exhaustive_order': '1..4 real, 1..3 complex' if q else '1..6 real, 1..5 complex',
-            'rc_families_order': '7..10' if q else '7..16', 'r0': [1e-9, 1.0, 2.5, 1e6], 'lar_is_grid': '-0.98..0.98 step 0.01',
+            'rc_families_order': '7..10' if q else '7..16', 'r0': [1e-18, 1.0, 2.5, 1e12], 'lar_is_grid': '-0.98..0.98 step 0.01',
             'lsf': 'real vectors above, order <= %d exhaustive + families' % (4 if q else 6)}
 
 
@@ -49,7 +49,7 @@ def run_shard(desc, R, tier):
         alpha = lp.RC_CPLX if cplx else lp.RC_REAL
         for t in itertools.product(alpha, repeat=p - len(prefix)):
             k = np.array([alpha[i] for i in prefix] + list(t), dtype=complex if cplx else float)
-            for r0 in (1e-9, 1.0, 2.5, 1e6):
+            for r0 in (1e-18, 1.0, 2.5, 1e12):
                 eval_point({'kind': 'lp', 'k': k, 'r0': r0}, R)
             if not cplx:
                 eval_point({'kind': 'lar_is', 'k': k}, R)
@@ -58,7 +58,7 @@ def run_shard(desc, R, tier):
         p = desc[1]
         for cplx in (False, True):
             for name, k in lp.rc_families(p, cplx):
-                eval_point({'kind': 'lp', 'k': k, 'r0': [1e-9, 1.0, 1e6][p % 3], 'family': name}, R)
+                eval_point({'kind': 'lp', 'k': k, 'r0': [1e-18, 1.0, 1e12][p % 3], 'family': name}, R)
                 if not cplx:
                     eval_point({'kind': 'lar_is', 'k': k}, R)
                     eval_point({'kind': 'lsf', 'k': k, 'family': name}, R)
@@ -72,12 +72,18 @@ def run_shard(desc, R, tier):
 
 
 def _call(R, clause, feats, pt, fn, *args):
+    """Call a conversion; an exception inside the domain is a violation, and so is a modified argument (conversions are functions)."""
     R.calls()
+    saved = [np.array(a, copy=True) if isinstance(a, np.ndarray) else a for a in args]
     try:
-        return fn(*args), True
+        out = fn(*args)
     except Exception as e:
         R.viol(clause, dict(feats, exc=type(e).__name__), pt, repr(e), None, '%s raised inside its domain' % clause)
         return None, False
+    for a, b in zip(args, saved):
+        if isinstance(a, np.ndarray) and not np.array_equal(a, b):
+            R.viol(clause, dict(feats, sub='argument_modified'), pt, a, b, '%s modified its input array in place' % getattr(fn, '__name__', clause))
+    return out, True
 
 
 def eval_point(pt, R):
@@ -119,6 +125,18 @@ def eval_point(pt, R):
             k_ac, r0_ac = out
             cmp('ac2rc', k_ac, k, 'ac2rc reflection coefficients != reference', 1.0)
             cmp('ac2rc', np.array([np.real(r0_ac)]), np.array([r0]), 'ac2rc zero-lag != r[0]')
+        # integer-valued autocorrelation (e.g. lag sums of integer data): same triple as for the float copy
+        if not cplx and p <= 3 and r0 == 1.0:
+            ri = np.round(r * 1000).astype(np.int64)
+            if lp.toeplitz(ri.astype(float)).shape[0] and np.linalg.eigvalsh(lp.toeplitz(ri.astype(float))).min() > 1.0:
+                refa, refe = None, None
+                kk = lp.rc_from_ac_dense(ri.astype(float))
+                out, ok = _call(R, 'ac2rc', dict(feats, input='int'), pt, L.ac2rc, ri)
+                if ok:
+                    cmp('ac2rc', np.asarray(out[0], dtype=float), kk, 'ac2rc on an integer autocorrelation != reference', 1.0)
+                out, ok = _call(R, 'ac2poly', dict(feats, input='int'), pt, L.ac2poly, ri)
+                if ok:
+                    cmp('ac2poly', np.asarray(out[0], dtype=float), lp.stepup(kk), 'ac2poly on an integer autocorrelation != reference', 1.0)
         # rc -> poly, rc -> ac
         out, ok = _call(R, 'rc2poly', feats, pt, L.rc2poly, k, r0)
         a_rc = None
